@@ -69,7 +69,7 @@ def lstep(l, st):
     """mirror of JobDir.lstep; returns a new JD or None"""
     k = l[0]
     n = st.copy()
-    if k in ("LSubmit", "LTest1", "LPid", "LAdoptEnd", "LTest2", "LReady", "LDepFail", "LSLock", "LAbort", "LTrunc",
+    if k in ("LSubmit", "LTest1", "LPid", "LAdoptEnd", "LTest2", "LReady", "LDepFail", "LSLock", "LTest3", "LAbort", "LTrunc",
              "LWrite", "LSpawn", "LCreatePid", "LWritePid", "LSUnlock", "LWaitEnd", "LCrash"):
         s = l[1]
         c = st.sched(s)
@@ -117,7 +117,15 @@ def lstep(l, st):
             if c[0] != "SLock" or st.lock is not None:
                 return None
             n.lock = ("S", s)
-            n.scheds[s] = ("STrunc",)
+            n.scheds[s] = ("STest3",) if FIXED[0] else ("STrunc",)
+        elif k == "LTest3":
+            if c[0] != "STest3":
+                return None
+            if st.done:
+                n.lock = release(("S", s), st.lock)
+                n.scheds[s] = ("SFinal", "VDone")
+            else:
+                n.scheds[s] = ("STrunc",)
         elif k == "LAbort":
             if c[0] != "STrunc":
                 return None
@@ -310,7 +318,7 @@ MARK_TEXT = {
     "aio_submit": [("T", "if job.donepath.exists():"), ("PID", "process = await job.aio_process()"),
                    ("ADOPTWAIT", "code = await process.aio_code()"), ("START", "state = await self.aio_start(job)")],
     "aio_start": [("LOCK", "async with job.launcher.connector.lock(job.lockpath):"),
-                  ("WAIT", "code = await process.aio_code()")],
+                  ("WAIT", "code = await process.aio_code()"), ("T3", "if job.donepath.exists():")],
     "aio_run": [("PREPARE", "scriptPath = self.prepare()"), ("SPAWN", "self._process = processbuilder.start(True)"),
                 ("WPID", 'with self.pidpath.open("w") as fp:'), ("RUNSET", "self.state = JobState.RUNNING")],
 }
@@ -339,6 +347,8 @@ def load_markers(repo):
                     found.setdefault(name, []).append(ln)
         for name, _ in MARK_TEXT[fn]:
             want = 2 if name == "T" else 1
+            if name == "T3" and not found.get(name):
+                continue        # the pinned aio_start has no marker test under the lock
             if len(found.get(name, [])) != want:
                 return None
         for name, lns in found.items():
@@ -375,6 +385,7 @@ def extract(rows, markers, slot_of, job_of_tag, runs):
           nothing more (its death, or the end of its experiment).
     Returns items (see search) or raises ValueError when the log cannot be interpreted."""
     items = []
+    has_t3 = any(v == "T3" for v in markers.values())
     cos = {}            # (sid, run, tag) -> state
     order = []
 
@@ -399,6 +410,14 @@ def extract(rows, markers, slot_of, job_of_tag, runs):
                 items.append(dict(kind="X", i=r["i"], job=job, ospid=r["pid"], what="begin"))
             else:
                 items.append(dict(kind="X", i=r["i"], job=job, ospid=r["pid"], what="end", ok=(r["res"] == "ok")))
+            continue
+        if r["kind"] == "R" and r["rest"][0] == "aio_start":
+            tag = r["rest"][1]
+            if tag != "None" and int(tag) in job_of_tag:
+                st = co(r["who"], r["run"], int(tag))
+                ac = st.pop("abort_candidate", None)
+                if ac is not None and r["rest"][-1] != "ret=DONE":
+                    add(st, r["who"], job_of_tag[int(tag)], ("LAbort", slot_of[r["who"]]), ac[0], r["i"])
             continue
         if r["kind"] == "R" and r["rest"][0] == "aio_submit":
             tag = r["rest"][1]
@@ -430,9 +449,18 @@ def extract(rows, markers, slot_of, job_of_tag, runs):
                 add(st, sid, job, ("LTest2", s), o["i"], r["i"])
             elif name == "LOCK1":
                 add(st, sid, job, ("LSLock", s), o["i"], r["i"])
+                if not has_t3:
+                    # no test under the lock in this tree: the model's (repaired) test is placed right behind the lock
+                    add(st, sid, job, ("LTest3", s), o["i"], r["i"])
+            elif name == "T3":
+                add(st, sid, job, ("LTest3", s), o["i"], r["i"])
             elif name == "LOCK2":
-                # leaving the lock without having prepared anything: the start was aborted (token not available)
-                add(st, sid, job, ("LSUnlock", s) if st.get("prepared") else ("LAbort", s), o["i"], r["i"])
+                if st.get("prepared"):
+                    add(st, sid, job, ("LSUnlock", s), o["i"], r["i"])
+                else:
+                    # leaving the lock without having prepared anything: the start was aborted (token not available) -
+                    # or the marker was found under the lock (aio_start returns DONE): decided when aio_start returns
+                    st["abort_candidate"] = (o["i"], r["i"])
             elif name == "PREPARE":
                 st["prepared"] = True
                 add(st, sid, job, ("LTrunc", s), o["i"], r["i"])
@@ -482,12 +510,14 @@ def extract(rows, markers, slot_of, job_of_tag, runs):
             if o is not None:
                 if o["name"] == "LOCK1":
                     opt = [("LSLock", s)]
+                elif o["name"] == "T3":
+                    opt = []
                 elif o["name"] == "PREPARE":
                     opt = [("LTrunc", s), ("LWrite", s)]
                 elif o["name"] == "SPAWN":
                     opt = [("LSpawn", s)]
                 elif o["name"] == "LOCK2":
-                    opt = [("LSUnlock", s) if st.get("prepared") else ("LAbort", s)]
+                    opt = [("LSUnlock", s)] if st.get("prepared") else []
             if st["wpid_i"] is not None:
                 opt = [("LCreatePid", s), ("LWritePid", s)]
                 o = dict(i=st["wpid_i"])
